@@ -1,12 +1,15 @@
 package main
 
 import (
+	"bytes"
 	"context"
 	"errors"
+	"flag"
 	"fmt"
 	"math/rand"
 	"strings"
 	"sync"
+	"sync/atomic"
 	"time"
 
 	"github.com/cockroachdb/pebble/vfs"
@@ -155,18 +158,25 @@ func (h *simHost) SyncRead(_ context.Context, _ uint64, req interface{}) (interf
 		h.calls = append(h.calls, "sync-dropped")
 		return nil, dragonboat.ErrShardNotReady
 	}
-	h.mu.Lock()
-	h.calls = append(h.calls, "sync")
-	i := h.r.Intn(len(h.reps))
-	if _, err := h.catchUp(i, len(h.log)); err != nil { // ReadIndex: applied >= commit index at the start of the read
-		h.mu.Unlock()
+	var v interface{}
+	var err error
+	hold := false
+	func() {
+		h.mu.Lock()
+		defer h.mu.Unlock() // a lookup that panics (the caller may recover) must not keep the host locked
+		h.calls = append(h.calls, "sync")
+		i := h.r.Intn(len(h.reps))
+		if _, err = h.catchUp(i, len(h.log)); err != nil { // ReadIndex: applied >= commit index at the start of the read
+			return
+		}
+		h.lastRead = h.applied[i]
+		v, err = h.reps[i].f.Lookup(req)
+		hold = h.holdRead
+		h.holdRead = false
+	}()
+	if err != nil {
 		return nil, err
 	}
-	h.lastRead = h.applied[i]
-	v, err := h.reps[i].f.Lookup(req)
-	hold := h.holdRead
-	h.holdRead = false
-	h.mu.Unlock()
 	if hold {
 		h.readHeld <- struct{}{}
 		<-h.releaseRead
@@ -198,7 +208,10 @@ func (h *simHost) referenceAt(k int) (*realFSM, error) {
 }
 
 func runC10(args []string) error {
-	rf, err := parseFlags("c10", args, nil)
+	txnHeavy := false
+	rf, err := parseFlags("c10", args, func(fs *flag.FlagSet) {
+		fs.BoolVar(&txnHeavy, "txn", false, "transaction-heavy scripts (the table layer under C02)")
+	})
 	if err != nil {
 		return err
 	}
@@ -219,6 +232,9 @@ func runC10(args []string) error {
 				return err
 			}
 			g := newFsmGen(r, Hist{})
+			if txnHeavy {
+				g.txnW = 12
+			}
 			at := table.Table{Name: "t", ClusterID: 10001}.AsActive(h)
 			var steps []gStep
 			var obs []string
@@ -356,7 +372,14 @@ func runC10(args []string) error {
 					if r.Intn(4) == 0 {
 						t.Succ, t.Fail = nil, nil
 					}
-					if r.Intn(5) == 0 { // read-only
+					if txnHeavy && r.Intn(3) == 0 {
+						// no predicate and nothing but puts (some asking for the previous pair) in the executed branch
+						t.Cmps, t.Succ = nil, nil
+						for j := 1 + r.Intn(4); j > 0; j-- {
+							t.Succ = append(t.Succ, gOp{Kind: 1, K: g.key(), V: g.val(), Prev: r.Intn(3) != 0})
+						}
+						ho.Inc("txn-puts-only")
+					} else if r.Intn(5) == 0 { // read-only
 						var su, fa []gOp
 						for _, o := range t.Succ {
 							if o.Kind == 0 {
@@ -493,6 +516,9 @@ func runC10(args []string) error {
 	if err := runC10ConcurrentReads(sum); err != nil {
 		return err
 	}
+	if err := runC10BigEntryAtomic(sum); err != nil {
+		return err
+	}
 	// one read delivered in several messages is one state too
 	if err := lazyStreamOneState(sum, joinChunks); err != nil {
 		return err
@@ -565,6 +591,63 @@ func runC10ConcurrentReads(sum *Summary) error {
 		}
 		_ = ra
 		h.close()
+	}
+	return nil
+}
+
+// runC10BigEntryAtomic: ONE log entry (a transaction of ten puts of 2 MiB, more than a Pebble batch of the state
+// machine's usual size) is applied while readers count the keys it writes: every read sees none or all of them - a
+// revision is published in one step, whatever its size.
+func runC10BigEntryAtomic(sum *Summary) error {
+	f, _, err := newRealFSM(vfs.NewMem(), fsm.RecoveryTypeSnapshot)
+	if err != nil {
+		return err
+	}
+	defer f.close()
+	var succ []gOp
+	for i := 0; i < 10; i++ {
+		succ = append(succ, gOp{Kind: 1, K: []byte(fmt.Sprintf("huge/%02d", i)), V: bytes.Repeat([]byte{byte('a' + i)}, 2*1024*1024-64)})
+	}
+	stop := make(chan struct{})
+	var torn atomic.Int64
+	var tornCount atomic.Int64
+	var reads atomic.Int64
+	var wg sync.WaitGroup
+	for r := 0; r < 3; r++ {
+		wg.Add(1)
+		go func() {
+			defer wg.Done()
+			for {
+				select {
+				case <-stop:
+					return
+				default:
+				}
+				res, err := f.read(gRange{Key: []byte("huge/"), End: []byte("huge0"), CountOnly: true})
+				if err != nil {
+					continue
+				}
+				reads.Add(1)
+				if res.Count != 0 && res.Count != 10 {
+					torn.Add(1)
+					tornCount.Store(res.Count)
+				}
+			}
+		}()
+	}
+	time.Sleep(20 * time.Millisecond)
+	_, _, aerr := f.apply([]gEntry{{Idx: 1, Cmd: gCmd{Kind: regattapb.Command_TXN, Succ: succ}}})
+	time.Sleep(20 * time.Millisecond)
+	close(stop)
+	wg.Wait()
+	if aerr != nil {
+		return aerr
+	}
+	sum.Evaluations++
+	sum.hist("ops").Inc("reads during one 20 MiB entry")
+	if torn.Load() > 0 {
+		sum.violate(890000, "read does not reflect a prefix of the acknowledged writes", map[string]any{"script": "one transaction of ten puts of 2 MiB applied by one Update call; three readers count the keys it writes meanwhile"},
+			fmt.Sprintf("%d of %d reads saw a part of the transaction (e.g. %d of its 10 keys)", torn.Load(), reads.Load(), tornCount.Load()))
 	}
 	return nil
 }
